@@ -116,3 +116,63 @@ func VH_check_transaction_standard() {
 		vReach("nonstandard")
 	}
 }
+
+type vEntry struct{ script []byte }
+
+func (e vEntry) PkScript() []byte { return e.script }
+
+type vPolicyView struct{ scripts map[wire.OutPoint][]byte }
+
+func (v *vPolicyView) LookupEntry(op wire.OutPoint) utxoEntry { return vEntry{v.scripts[op]} }
+
+// C10(12): input standardness: spending a pay-to-anchor output requires an empty signature script and an empty
+// witness; a P2SH input may carry at most 15 signature operations in its redeem script (n = 14..16 CHECKSIGs); an
+// input spending a non-standard script form is refused; the other standard forms pass.
+//verif:opts reach=ok,refused
+func VH_check_inputs_standard() {
+	var op wire.OutPoint
+	op.Hash[0] = 0x21
+	m := wire.NewMsgTx(2)
+	in := &wire.TxIn{PreviousOutPoint: op}
+	m.AddTxIn(in)
+	m.AddTxOut(&wire.TxOut{Value: 1, PkScript: []byte{0x51}})
+	h20 := make([]byte, 20)
+	var prev []byte
+	want := true
+	switch vNondetLen("prevKind", 4) {
+	case 0: // pay to anchor
+		prev = []byte{0x51, 0x02, 0x4e, 0x73}
+		if vNondetBool("sigScript") {
+			in.SignatureScript = []byte{0x51}
+			want = false
+		}
+		if vNondetBool("witness") {
+			in.Witness = wire.TxWitness{{1}}
+			want = false
+		}
+	case 1: // P2SH with n CHECKSIG operations in the redeem script
+		prev = append(append([]byte{0xa9, 0x14}, h20...), 0x87)
+		n := 14 + vNondetLen("redeemSigOps", 2)
+		redeem := make([]byte, n)
+		for i := range redeem {
+			redeem[i] = 0xac
+		}
+		in.SignatureScript = append([]byte{byte(n)}, redeem...)
+		want = n <= 15
+	case 2: // non-standard form
+		prev = []byte{0x51, 0x52, 0x93}
+		want = false
+	case 3: // P2PKH
+		prev = append(append([]byte{0x76, 0xa9, 0x14}, h20...), 0x88, 0xac)
+	default: // P2WPKH
+		prev = append([]byte{0x00, 0x14}, h20...)
+	}
+	view := &vPolicyView{scripts: map[wire.OutPoint][]byte{op: prev}}
+	err := checkInputsStandardWithView(btcutil.NewTx(m), view)
+	vAssert((err == nil) == want, "inputs are standard iff P2A is spent bare, P2SH redeem scripts have <= 15 sigops and the spent form is standard")
+	if err == nil {
+		vReach("ok")
+	} else {
+		vReach("refused")
+	}
+}
